@@ -437,7 +437,11 @@ def build5(w):
                'implies(%s and len(self.savepoints) <= K and K < len(%s), %s[K][0] != query_unit.sp_name)' % (ACT('ROLLBACK_TO_SAVEPOINT'), OLD, OLD),
                'implies(%s and not query_unit.frontend_only and old(self.in_tx), self.in_tx_settings == self.savepoints[len(self.savepoints) - 1][1] and self.in_tx_local_settings == self.savepoints[len(self.savepoints) - 1][2])' % ACT('ROLLBACK_TO_SAVEPOINT'),
                'implies(%s or %s, len(self.savepoints) == 0 and self.in_tx)' % (ACT('COMMIT'), ACT('ROLLBACK')),
-               'implies(%s and not query_unit.frontend_only, self.settings == old(self.in_tx_settings))' % ACT('COMMIT'),
+               # COMMIT: the transaction's non-local settings become the baseline; with NO transaction in progress (first statement of a request) nothing is lost
+               'implies(%s and not query_unit.frontend_only and old(self.in_tx), self.settings == old(self.in_tx_settings))' % ACT('COMMIT'),
+               'implies(%s and not query_unit.frontend_only and not old(self.in_tx), self.settings == old(self.settings))' % ACT('COMMIT'),
+               # whatever the action, the statement that follows runs in a transaction whose settings start from the baseline
+               'implies((%s or %s) and not query_unit.frontend_only, self.in_tx_settings == self.settings and self.in_tx_local_settings == self.settings)' % (ACT('COMMIT'), ACT('ROLLBACK')),
                'implies(%s and not query_unit.frontend_only, self.settings == old(self.settings))' % ACT('ROLLBACK'),
                'implies(%s, len(self.savepoints) == len(%s) + 1 and self.savepoints[len(%s)][0] == query_unit.sp_name)' % (ACT('DECLARE_SAVEPOINT'), OLD, OLD),
                'implies(%s and 0 <= K and K < len(%s), self.savepoints[K] == %s[K])' % (ACT('DECLARE_SAVEPOINT'), OLD, OLD),
